@@ -17,7 +17,7 @@ from vzstatic import cfg as cfgmod
 from vzstatic import flow
 from vzstatic.index import FuncInfo, dotted
 from vzstatic.selftest import Variant
-from vzstatic.source import AnalysisError, loc, unparse
+from vzstatic.source import ancestors, AnalysisError, loc, unparse
 from vzstatic.svc import Svc, where
 
 MANIFEST = {
@@ -233,6 +233,11 @@ def run(ctx) -> None:
   ctx.rule('R4', 'raising events inside the acquire..release window are enumerated', 2)
   ctx.import_rules('C04', {'R2'}, 'R6', 'locks around the algorithm are released when it raises (with-blocks only, acyclic order)')
   ctx.import_rules('C02', {'R3'}, 'R7', 'over-delivery: every surplus trial gets its own fresh id')
+  ctx.import_rules('C01', {'R1', 'R2'}, 'R8', 'whatever the failure paths store still satisfies the trial lifecycle (handler bodies included)')
+  ctx.rule('R9', 'no unbounded retry around the algorithm: every handler of a retry loop leaves the loop or is bounded by a counter', 1)
+  ctx.rule('R10', 'nothing between the algorithm and the caller swallows its exception: handlers around algorithm calls '
+           're-raise or record the error on the operation', 3)
+  r9_r10_algorithm_calls(ctx, svc)
   ctx.assume('proto setters, logging, converters and datastore calls other than update_metadata '
              'do not raise inside the window')
   ctx.trust('in-process PythiaServicer.Suggest re-raises RuntimeError; a PythiaService stub raises '
@@ -335,6 +340,90 @@ def run(ctx) -> None:
   if analysed < 2:
     raise AnalysisError(f'expected SuggestTrials and CheckTrialEarlyStoppingState to store operations; found {analysed}')
   r3_client(ctx)
+
+
+# ------------------------------------------------------------------ R9, R10
+_ALGO_MODULES = ['vizier._src.service.pythia_service', 'vizier._src.pythia.suggest_default',
+                 'vizier._src.algorithms.policies.designer_policy', 'vizier._src.service.vizier_service']
+_ALGO_CALL_ATTRS = {'suggest', 'early_stop', 'Suggest', 'EarlyStop'}
+
+
+def _is_algo_call(c: ast.Call) -> bool:
+  if isinstance(c.func, ast.Attribute) and c.func.attr in _ALGO_CALL_ATTRS:
+    return True
+  return isinstance(c.func, ast.Name) and c.func.id in ('suggest_fn', 'early_stop_fn')
+
+
+def _always_leaves(body: List[ast.stmt]) -> bool:
+  """Every path through `body` ends in raise / return / break."""
+  for st in body:
+    if isinstance(st, (ast.Raise, ast.Return, ast.Break)):
+      return True
+    if isinstance(st, ast.If) and st.orelse and _always_leaves(st.body) and _always_leaves(st.orelse):
+      return True
+  return False
+
+
+def _records_error(body: List[ast.stmt]) -> bool:
+  for st in body:
+    for x in ast.walk(st):
+      if isinstance(x, ast.Call) and isinstance(x.func, ast.Attribute) and x.func.attr == 'CopyFrom' \
+          and (dotted(x.func.value) or '').endswith('.error'):
+        return True
+      if isinstance(x, ast.Assign) and any((dotted(t) or '').endswith(('.error.message', '.error.code', '.failure_message'))
+                                           for t in x.targets):
+        return True
+  return False
+
+
+def r9_r10_algorithm_calls(ctx, svc: Svc) -> None:
+  n_calls = 0
+  n_loops = 0
+  for q in _ALGO_MODULES:
+    mi = ctx.index.need_module(q)
+    for fn in [f for f in ast.walk(mi.tree) if isinstance(f, ast.FunctionDef)]:
+      calls = [c for c in ast.walk(fn) if isinstance(c, ast.Call) and _is_algo_call(c)
+               and next((a for a in ancestors(c) if isinstance(a, (ast.FunctionDef, ast.Lambda))), None) is fn]
+      for c in calls:
+        n_calls += 1
+        trys = [(a, 'body') for a in ancestors(c) if isinstance(a, ast.Try) and any(_inside(c, st) for st in a.body)]
+        trys = [t for t, _ in trys if next((a for a in ancestors(t) if isinstance(a, (ast.FunctionDef, ast.Lambda))), None) is fn]
+        inst = f'{q.rsplit(".", 1)[-1]}.{fn.name}: {unparse(c.func, 40)}(...) at line {c.lineno}'
+        if not trys:
+          ctx.ok('R10', inst, c, 'no handler: the exception propagates to the caller')
+        for t in trys:
+          for h in t.handlers:
+            leaves = _always_leaves(h.body)
+            raises = any(isinstance(x, ast.Raise) for st in h.body for x in ast.walk(st))
+            records = _records_error(h.body)
+            loop = next((a for a in ancestors(t) if isinstance(a, (ast.While, ast.For))
+                         and next((b for b in ancestors(a) if isinstance(b, (ast.FunctionDef, ast.Lambda))), None) is fn), None)
+            hname = unparse(h.type, 40) if h.type is not None else 'bare'
+            if loop is not None:
+              n_loops += 1
+              # bounded: a conditional raise/return/break whose test reads a name that the loop body modifies
+              modified = {t2.id for x in ast.walk(loop) if isinstance(x, ast.AugAssign) for t2 in [x.target] if isinstance(t2, ast.Name)}
+              bounded = leaves or any(
+                  isinstance(x, ast.If) and _always_leaves(x.body) and (flow.names_in(x.test) & modified)
+                  for st in h.body for x in ast.walk(st))
+              ctx.check(bounded, 'R9', inst + f': handler `{hname}` inside a retry loop', h,
+                        'handler leaves the loop or raises after a bounded number of attempts',
+                        f'`except {hname}` falls through to the next iteration of the enclosing loop with no bound: an algorithm '
+                        'that keeps raising this exception keeps the RPC (and the locks it holds) busy forever instead of '
+                        'reporting the failure', construct=f'{fn.name}:retry:{hname}', func=f'{q}.{fn.name}')
+              if bounded and not leaves:
+                continue  # a bounded retry: the final attempt re-raises; other iterations legitimately continue
+            ok = (leaves and raises) or records or (leaves and not any(isinstance(x, ast.Return) and x.value is not None
+                                                                      for st in h.body for x in ast.walk(st)) and raises)
+            ctx.check(ok, 'R10', inst + f': handler `{hname}`', h,
+                      're-raises or records the error on the operation',
+                      f'`except {hname}` around the algorithm call neither re-raises on every path nor records the error: the failure '
+                      'is swallowed and the caller receives a normal (short) result', construct=f'{fn.name}:swallow:{hname}',
+                      func=f'{q}.{fn.name}')
+  if n_calls < 5:
+    raise AnalysisError(f'only {n_calls} algorithm call sites found in the pythia/policy/service modules')
+  if n_loops == 0:
+    ctx.ok('R9', 'no retry loop around any algorithm call', 'vizier/_src/service/pythia_service.py', 'algorithm calls are made once')
 
 
 def _short(n: cfgmod.Node) -> str:
